@@ -71,6 +71,29 @@ def nested_anonymous_routines_unclosed_paren(fail):
     return anon_heads >= 4 and t.count("(") > t.count(")")
 
 
+_C05_KINDS = ("statement_not_on_own_line", "statement_wrong_indentation")
+
+
+def first_member_named_like_class_modifier(fail):
+    """F36: the first field of a class is named `Sealed` or `Abstract`: the name is taken for the class modifier"""
+    return fail.get("kind") in _C05_KINDS and re.search(r"(?i)\bclass\s+(sealed|abstract)\s*:", _text(fail)) is not None
+
+
+def anonymous_routine_inside_raise(fail):
+    """F37: an anonymous routine in the expression of a `raise` statement is skipped as a parenthesised pair"""
+    return fail.get("kind") in _C05_KINDS and re.search(r"(?i)\braise\b[^;]*\b(procedure|function)\b", _text(fail)) is not None
+
+
+def comment_between_control_keyword_and_begin(fail):
+    """F38: an own-line comment between then/do/else and the `begin` of the body"""
+    return fail.get("kind") in _C05_KINDS and re.search(r"(?is)\b(then|do|else)\b[ \t]*\r?\n[ \t]*(//[^\n]*|\{[^}$][^}]*\}|\(\*.*?\*\))[ \t]*\r?\n[ \t]*begin\b", _text(fail)) is not None
+
+
+def config_value_coerced(fail):
+    """F35: ill-typed configuration values of the kinds the `config` crate coerces instead of rejecting"""
+    return fail.get("kind") == "invalid_config_accepted" and fail.get("value_class") == "coercible"
+
+
 def cursor_mid_char_changed_token(fail):
     """F9: cursor at/inside a token whose text changed and contains non-ASCII"""
     return fail.get("kind") == "cursor_not_on_char_boundary" and fail.get("token_class") == "changed_token"
@@ -158,7 +181,7 @@ def witness_inputs(prop):
     return out
 
 
-DETECTORS = {f.__name__: f for f in [nested_anonymous_routines_unclosed_paren, lone_cr_after_line_comment, overflow_by_closers_after_line_comment, wider_more_lines_in_overflow_regime, wider_more_lines_cheaper_break_kind, mlstring_width_dependence,
+DETECTORS = {f.__name__: f for f in [first_member_named_like_class_modifier, anonymous_routine_inside_raise, comment_between_control_keyword_and_begin, config_value_coerced, nested_anonymous_routines_unclosed_paren, lone_cr_after_line_comment, overflow_by_closers_after_line_comment, wider_more_lines_in_overflow_regime, wider_more_lines_cheaper_break_kind, mlstring_width_dependence,
     cr_after_line_comment_in_region, literal_then_gap, mlstring_in_child_line_reflow,
     trailing_exotic_blank_in_line_comment, unterminated_literal_trailing_blank, continuation_saturates,
     nesting_depth, cursor_mid_char_changed_token, cursor_u16_truncation, mlstring_last_terminator_lone_cr,
